@@ -241,6 +241,10 @@ func NewCustomType(specCustom string, st InternalSchemaType) (CustomType, Import
 	}
 
 	dotIdx := strings.LastIndex(specCustom, ".")
+	if dotIdx >= 0 && dotIdx < slIdx {
+		// "github.com/username/MyType": the only dots belong to the import path
+		dotIdx = -1
+	}
 	if dotIdx >= 0 {
 		// github.com/username/name.MyType
 		//                         ^
